@@ -417,7 +417,8 @@ class Engine:
                 self.wf(st, x)
         elif k == "dict" and sv.ty.elts[1].kind == "seq":
             kk = z3.Const(fresh_name("wk"), sv.v.arrs[1].sort().domain())
-            st.assume(z3.ForAll([kk], z3.Select(sv.v.arrs[1], kk) >= 0, patterns=[z3.Select(sv.v.arrs[1], kk)]))
+            st.assume(z3.ForAll([kk], And(z3.Select(sv.v.arrs[1], kk) >= 0, Not(z3.Select(sv.v.arrs[0], kk))),
+                                patterns=[z3.Select(sv.v.arrs[1], kk)]))
 
     def assume_alive(self, st: State, sv: SV):
         if self.spec_mode or self.lambda_env:
@@ -477,6 +478,8 @@ class Engine:
             raise Unsupported("truthiness of dict/set")
         elif k == "func":
             p = TRUE
+        elif k == "small":
+            p = Or(*[c for c, _ in sv.v])
         else:
             raise Unsupported(f"truthiness of {sv.ty}")
         return And(Not(sv.none), p)
@@ -683,7 +686,7 @@ class Engine:
                 if attr in STR_METHODS:
                     return SV(Ty("func"), None, tag=("bound", recv, attr))
                 raise
-        if recv.ty.kind in ("str", "seq", "dict", "set", "tuple"):
+        if recv.ty.kind in ("str", "seq", "dict", "set", "tuple", "small"):
             return SV(Ty("func"), None, tag=("bound", recv, attr, node.value if node is not None else None))
         raise Unsupported(f"attribute {attr} on {recv.ty}")
 
@@ -794,6 +797,12 @@ class Engine:
 
     def binop(self, st, op: str, a: SV, b: SV) -> SV:
         ka, kb = a.ty.kind, b.ty.kind
+        if ka == kb == "small" and op == "BitAnd":
+            out = []
+            for c1, v1 in a.v:
+                for c2, v2 in b.v:
+                    out.append((And(c1, c2, self.equal(st, v1, v2)), v1))
+            return SV(Ty("small"), out)
         self.may_raise("TypeError", Or(a.none, b.none), f"binop-none:{op}")
         if ka == kb == "int":
             if op == "Add":
@@ -906,6 +915,9 @@ class Engine:
                 r = b.none
             elif ka == kb == "obj":
                 r = Or(And(a.none, b.none), And(Not(a.none), Not(b.none), a.v == b.v))
+            elif ka == "func" and kb == "func" and a.tag[0] == "typeof" and b.tag[0] == "class":
+                o = a.tag[1]
+                r = And(Not(o.none), class_of(o.v) == self.repo.classes[b.tag[1]].cid) if o.ty.kind == "obj" else FALSE
             elif ka == "func" and kb == "func":
                 r = z3.BoolVal(self.func_identity(a) == self.func_identity(b))
             else:
@@ -1016,7 +1028,22 @@ class Engine:
         if len(n.generators) != 1:
             raise Unsupported("multi-generator comprehension")
         g = n.generators[0]
-        src = self.as_seq(st, self.ev(g.iter, st))
+        src0 = self.ev(g.iter, st)
+        if src0.ty.kind == "small":
+            out = []
+            for c0, v0 in src0.v:
+                env0: Dict[str, SV] = {}
+                self.bind_target(g.target, v0, env0, st)
+                self.lambda_env.append(env0)
+                try:
+                    cc = c0
+                    for cnd in g.ifs:
+                        cc = And(cc, self.truthy(st, self.ev(cnd, st)))
+                    out.append((cc, self.ev(n.elt, st)))
+                finally:
+                    self.lambda_env.pop()
+            return SV(Ty("small"), out)
+        src = self.as_seq(st, src0)
         if isinstance(src.v, list):        # literal tuple: unroll exactly
             items = []
             raise Unsupported("comprehension over literal tuple")
@@ -1109,18 +1136,22 @@ class Engine:
                     bound[p] = self.ev(defaults[p], st) if defaults[p] is not None else none_sv()
                 else:
                     raise Unsupported(f"missing argument {p} for {qname}")
+        short = qname.split(".")[-1]
+        k = self.call_counts[short] = self.call_counts.get(short, 0) + 1
+        site = f"call:{short}#{k}"
         # static types of params from the callee contract
         for p, ts in c.types.items():
             if p in bound and bound[p].ty.kind != "none":
                 ty = parse_type(ts)
+                if bound[p].ty.kind == "obj" and ty.kind == "obj" and (ty.cls in self.repo.classes or ty.cls in ("TokenOrStr", "str")) and not self.spec_mode:
+                    cur0 = self.static_class(st, bound[p])
+                    if not (cur0 in self.repo.classes and ty.cls in self.repo.classes and ty.cls in self.repo.mro(cur0)):
+                        self.emit(f"{site}:pre:type:{p}", Implies(And(*self.guards), Or(bound[p].none, self.class_in(bound[p].v, ty.cls))), st, kind="pre")
                 if bound[p].ty.kind == "obj" and ty.kind == "obj" and ty.cls:
                     cur = self.static_class(st, bound[p])
                     # keep the more specific static class
                     if not (cur in self.repo.classes and ty.cls in self.repo.classes and ty.cls in self.repo.mro(cur)):
                         bound[p] = SV(ty, bound[p].v, bound[p].none)
-        short = qname.split(".")[-1]
-        k = self.call_counts[short] = self.call_counts.get(short, 0) + 1
-        site = f"call:{short}#{k}"
         if c.assumed:
             self.trust(f"assumed contract: {qname}" + (f" ({c.trusted_note})" if c.trusted_note else ""))
         pre = st.fork()
@@ -1312,7 +1343,7 @@ class Engine:
         self._list_hint = hint
         val = self.ev(s.value, st)
         self._list_hint = None
-        if hint is not None and val.ty.kind != "none":
+        if hint is not None:
             try:
                 val = self.coerce(val, hint)
             except Unsupported:
@@ -1448,6 +1479,22 @@ class Engine:
         c = self.truthy(st, cv)
         outs = self.flush_raises(st)
         res = list(outs)
+        if self.contract is not None and self.contract.merge_ifs and not is_true(c) and not is_false(c):
+            L = len(st.pc)
+            sa, sb = st.fork(), st.fork()
+            sa.assume(c)
+            sb.assume(Not(c))
+            self.apply_narrowing(sa, s.test, True)
+            self.apply_narrowing(sb, s.test, False)
+            oa = self.exec_block(s.body, sa) if s.body else [Outcome("normal", sa)]
+            ob = self.exec_block(s.orelse, sb) if s.orelse else [Outcome("normal", sb)]
+            na = [o for o in oa if o.kind == "normal"]
+            nb = [o for o in ob if o.kind == "normal"]
+            if len(na) == 1 and len(nb) == 1:
+                merged = self.merge_states(st, L, na[0].st, nb[0].st, c)
+                if merged is not None:
+                    return res + [o for o in oa + ob if o.kind != "normal"] + [Outcome("normal", merged)]
+            return res + oa + ob
         for branch, cond, body in ((True, c, s.body), (False, Not(c), s.orelse)):
             if is_false(cond):
                 continue
@@ -1458,6 +1505,50 @@ class Engine:
                 continue
             res.extend(self.exec_block(body, bs) if body else [Outcome("normal", bs)])
         return res
+
+    def merge_states(self, st0: State, L: int, sa: State, sb: State, c) -> Optional[State]:
+        m = st0.fork()
+        m.pc = list(st0.pc[:L])
+        for p in sa.pc[L:]:
+            if not p.eq(c):
+                m.pc.append(Implies(c, p))
+        for p in sb.pc[L:]:
+            if not (z3.is_not(p) and p.arg(0).eq(c)):
+                m.pc.append(Implies(Not(c), p))
+        for name in set(sa.store) | set(sb.store):
+            va, vb = sa.store.get(name), sb.store.get(name)
+            if va is None or vb is None:
+                m.store[name] = va or vb
+            elif va is vb:
+                m.store[name] = va
+            elif va.ty.kind == "small" and vb.ty.kind == "small":
+                n = 0
+                while n < len(va.v) and n < len(vb.v) and va.v[n][1] is vb.v[n][1] and va.v[n][0] is vb.v[n][0]:
+                    n += 1
+                m.store[name] = SV(Ty("small"), list(va.v[:n]) + [(And(c, ci), vi) for ci, vi in va.v[n:]] + [(And(Not(c), ci), vi) for ci, vi in vb.v[n:]])
+            elif va.ty.kind == "func" or vb.ty.kind == "func":
+                if va.tag != vb.tag:
+                    return None
+                m.store[name] = va
+            else:
+                try:
+                    m.store[name] = ite_sv(c, va, vb)
+                except TypeError:
+                    return None
+        for key in set(sa.heap) | set(sb.heap):
+            ha, hb = sa.heap.get(key), sb.heap.get(key)
+            if ha is None or hb is None:
+                ty_arrs = ha or hb
+                base = st0.heap.get(key) or [z3.Const(f"H0.{key}.{i}", a.sort()) for i, a in enumerate(ty_arrs)]
+                ha, hb = ha or base, hb or base
+            m.heap[key] = [x if x.eq(y) else z3.If(c, x, y) for x, y in zip(ha, hb)]
+        m.alive = sa.alive if sa.alive.eq(sb.alive) else z3.If(c, sa.alive, sb.alive)
+        m.written = {k: sa.written.get(k, []) + sb.written.get(k, []) for k in set(sa.written) | set(sb.written)}
+        m.narrow = {k: v for k, v in sa.narrow.items() if sb.narrow.get(k) == v}
+        m.defs_assumed = sa.defs_assumed & sb.defs_assumed
+        m.havocked_fields = sa.havocked_fields | sb.havocked_fields
+        m.trace = list(sa.trace)
+        return m
 
     def apply_narrowing(self, st: State, test: ast.AST, positive: bool):
         """isinstance(x, C) / type(x) is C on the positive branch refine the static class of x."""
